@@ -37,6 +37,11 @@ def run_rules(prop, F, tier):
         else:
             try:
                 r = getattr(mod, fn)(F, **kwargs)
+            except factsmod.AnchorInlined as e:
+                # the function this rule is about was inlined into its caller: the clause is not decided (no alarm, no proof)
+                from vlib.report import RuleResult
+                r = RuleResult("%s.%s" % (modname, fn), "anchor function inlined away: clause not decided on this tree")
+                r.undecided(str(e))
             except BaseException as e:
                 cache[ck] = e
                 raise
